@@ -8,6 +8,7 @@
 From stdpp Require Import gmap list.
 From Coq Require Import NArith.
 From BS Require Import Sync.Types Sync.Model Sync.Observe Sync.Proofs.PanicLemmas Sync.Proofs.Panic.
+From BS Require Codec.CodecTypes Codec.MeshCodec Codec.MeshCodecProofs Codec.ImageCodec Codec.ImageCodecProofs.
 
 (* Local, for EVERY peer state, EVERY executable order of Update (any list of systems, including
    orders Bevy never builds, application systems issuing despawns anywhere), EVERY oracle: a
@@ -70,6 +71,18 @@ Proof. exact C08_no_panic_no_hierarchy. Qed.
 Theorem C08_literal_statement_needs_truthful_oracles : ~ C08_no_panic_statement.
 Proof. exact C08_no_panic_statement_refuted. Qed.
 
+(* "... or published assets": whatever bytes a download delivers — a download cut off at the transfer
+   limit included — the decoders of process_mesh_assets / process_image_assets do not panic (byte-exact
+   models of bin_to_mesh / bin_to_image over the lz4 and bincode models; since the repair 1d88107, before
+   which a stream that does not decompress was an `unwrap` panic: reproduced on the real code) *)
+Theorem C08_downloaded_mesh_bytes_never_panic :
+  forall bs, MeshCodec.bin_to_mesh bs <> CodecTypes.Panic.
+Proof. exact MeshCodecProofs.bin_to_mesh_never_panics. Qed.
+
+Theorem C08_downloaded_image_bytes_never_panic :
+  forall bs, ImageCodec.bin_to_image bs <> CodecTypes.Panic.
+Proof. exact ImageCodecProofs.bin_to_image_never_panics. Qed.
+
 Print Assumptions C08_frame_never_panics_on_dead_entities.
 Print Assumptions C08_frame_panics_only_on_self_parent_link.
 Print Assumptions C08_frame_no_panic.
@@ -80,3 +93,5 @@ Print Assumptions C08_frame_stops_only_when_panicked.
 Print Assumptions C08_no_panic.
 Print Assumptions C08_no_panic_without_hierarchy.
 Print Assumptions C08_literal_statement_needs_truthful_oracles.
+Print Assumptions C08_downloaded_mesh_bytes_never_panic.
+Print Assumptions C08_downloaded_image_bytes_never_panic.
